@@ -119,7 +119,14 @@ def permuted(m, perm):
 def run_impl(P, requests, layout=None):
     idx, perm = layout if layout is not None else (P["blocks"], list(range(P["d"])))
     H = {n: to_sympy(permuted(m, perm)) for n, m in P["terms"].items()}
-    Ht, U, Ud = block_diagonalize(H, subspace_indices=idx, fully_diagonalize=P["fd_py"], hermitian=P["hermitian"])
+    syms = None
+    if P.get("as_polynomial") and all(any(n[a] > 0 for n in H) for a in range(P["k"])):
+        # the same series as ONE SymPy matrix, polynomial in the perturbation symbols: the code Taylor-expands it
+        syms = list(sympy.symbols("t0:%d" % P["k"], real=True))
+        H = sum((sympy.Mul(*[s_ ** e for s_, e in zip(syms, n)]) * m for n, m in H.items()), sympy.zeros(P["d"], P["d"]))
+        Ht, U, Ud = block_diagonalize(H, symbols=syms, subspace_indices=idx, fully_diagonalize=P["fd_py"], hermitian=P["hermitian"])
+    else:
+        Ht, U, Ud = block_diagonalize(H, subspace_indices=idx, fully_diagonalize=P["fd_py"], hermitian=P["hermitian"])
     S = {"H_tilde": Ht, "U": U, "U†": Ud}
     P["_series"] = S
     out = []
@@ -135,6 +142,7 @@ def run_impl(P, requests, layout=None):
             for a in range(sizes[i]): full[off[i] + a][off[i] + a] = (Fraction(1), Fraction(0))
             out.append(("one", full)); continue
         v = sympy.Matrix(v)
+        if syms is not None: v = v.subs({s_: 1 for s_ in syms})          # every order carries its monomial in the symbols: take the coefficient
         for a in range(v.rows):
             for b in range(v.cols):
                 z = sympy.expand(v[a, b]); re, im = z.as_real_imag()
@@ -399,6 +407,8 @@ def main(seed, ncases, driver, out, mode="all"):
         rnd.shuffle(reqs)
         t0 = time.time()
         try:
+            P["as_polynomial"] = rnd.random() < 0.3
+            if P["as_polynomial"]: stats["exact run given as one SymPy polynomial matrix"] = stats.get("exact run given as one SymPy polynomial matrix", 0) + 1
             layout = interleave(P, rnd) if rnd.random() < 0.5 else None
             if layout is not None: stats["interleaved subspace_indices (exact run)"] = stats.get("interleaved subspace_indices (exact run)", 0) + 1
             impl = run_impl(P, reqs, layout)
